@@ -216,6 +216,20 @@ def check(case, obj=None) -> list[Fail]:
                 ok, msg = False, f"raises {type(e).__name__}: {e}"
             if not ok:
                 fails.append(Fail("hugr.port_kind", k, f"in {i}: {msg}"[:300]))
+    if obj is None and k in ("Call", "LoadFunc") and not op["params"]:
+        # a function without type parameters has one instantiation, its body, whatever the caller says it is
+        import hugr.ops as hops
+        import hugr.tys as htys
+        from vlib.interp import mk_poly, mk_row
+
+        cls_ = hops.Call if k == "Call" else hops.LoadFunc
+        other = htys.FunctionType([htys.Bool, *mk_row(op["o"])], mk_row(op["i"]))
+        try:
+            alt = cls_(mk_poly(op), other, [])
+        except Exception as e:  # noqa: BLE001
+            fails.append(Fail("construct", f"{k}:monomorphic-with-stated-instantiation", f"{type(e).__name__}: {e}"[:200]))
+        else:
+            fails += [Fail(f.clause, f.locus + "|monomorphic-with-stated-instantiation", f.msg) for f in check(case, obj=alt)]
     return fails
 
 
@@ -339,6 +353,41 @@ def check_declared(case) -> list[Fail]:
     return fails
 
 
+def check_outputs_again(case) -> list[Fail]:
+    """A DFG whose outputs are set a second time (first the empty row or a provisional row given with the
+    operation, then the final wires): its outer and inner signature, output count and the body's Output node
+    all carry the final row."""
+    import hugr.ops as hops
+    from hugr.build.dfg import Dfg
+    from hugr.hugr import Hugr
+
+    from vlib.interp import mk_row
+
+    ins = case["ins"]
+    copy_ok = [i for i, t in enumerate(ins) if ref.ref_bound(t) == "C"]
+    if case["via"] == "new_nested":
+        host = Hugr(hops.Module())
+        d = Dfg.new_nested(hops.DFG(mk_row(ins), mk_row(case["provisional"])), host)
+    else:
+        d = Dfg(*mk_row(ins))
+        first = [i % len(copy_ok) for i in case["first"]] if copy_ok else []
+        d.set_outputs(*[d.inputs()[copy_ok[i]] for i in first])
+    second = [i % len(ins) for i in case["second"]] if ins else []
+    d.set_outputs(*[d.inputs()[i] for i in second])
+    want = ref.enc_row([ins[i] for i in second])
+    fails = []
+    for what, get in (("outer_signature", lambda: sig_io(d.parent_op.outer_signature())[1]), ("inner_signature", lambda: sig_io(d.parent_op.inner_signature())[1]),
+                      ("Output.types", lambda: [dump(t._to_serial_root()) for t in d.hugr[d.output_node].op.types]), ("num_out", lambda: d.parent_op.num_out)):
+        try:
+            got = get()
+        except Exception as e:  # noqa: BLE001
+            got = f"raises {type(e).__name__}"
+        w = len(want) if what == "num_out" else want
+        if got != w:
+            fails.append(Fail(what, "DFG:outputs-set-again:" + case["via"], f"got={got} final row={w}"[:300]))
+    return fails
+
+
 def arity_changes(op) -> bool:
     if op["k"] not in ("Call", "LoadFunc") or not op["params"]:
         return False
@@ -367,6 +416,9 @@ def classes(case):
 
 
 SUBS = [
+    Sub("dfg-outputs-set-again", check_outputs_again, strategy=lambda tier: st.fixed_dictionaries({"ins": st.lists(asts.types(1), max_size=3), "via": st.sampled_from(["set_outputs", "new_nested"]), "provisional": st.lists(asts.types(1), max_size=2),
+                                                                                                  "first": st.lists(st.integers(0, 5), max_size=2), "second": st.lists(st.integers(0, 5), max_size=3)}),
+        nontrivial=lambda c: bool(c["ins"]) and bool(c["second"]), classes=lambda c: [c["via"]], n_quick=200, n_thorough=1500),
     Sub("replaced-nodes", check_replaced, strategy=lambda tier: st.tuples(asts.op_asts(2, kinds=["Custom", "Tag", "MakeTuple", "UnpackTuple", "Noop", "LoadConst", "Call", "DivMod", "Not"]), asts.op_asts(2, kinds=["Custom", "Tag", "MakeTuple", "UnpackTuple", "Noop", "LoadConst", "Call", "DivMod", "Not"])).map(lambda t: {"op1": t[0], "op2": t[1]}),
         nontrivial=lambda c: c["op1"] != c["op2"], classes=lambda c: [c["op2"]["k"]], n_quick=200, n_thorough=1500),
     Sub("declared-functions", check_declared, strategy=lambda tier: st.fixed_dictionaries({"ins": st.lists(asts.types(1), max_size=3), "decl": st.lists(asts.types(1), max_size=3), "call": st.booleans()}),
